@@ -6,11 +6,44 @@ HOOK_COMMITS = ["57c9cc3"]
 
 # id -> (level category, technique, level text, level note, design ref, engine)
 CHECKS = {
+ "C01": ("exploration", "bounded-exhaustive enumeration of packet values (per-field whole domains over two baselines) through the real encoder and decoder, both directions",
+         "Every Gen case (73 kinds x B0/B1 x every field's bounded domain: all 8-bit values, 16-bit boundary sets in quick / whole 16-bit domains in thorough, 32-bit boundary + byte-lane sets, every enumerant, flag subsets, all nibble pairs, counts 0..max, text) x both size modes is encoded, decoded and re-encoded: typed->wire->typed equality (Debug) and wire->typed->wire byte identity on every frame the encoder produced. Decoder-independent typed values cover the hand-written reader/writer pairs (ConInfo nibbles, SmallType durations, CimMode, RaceLaps, Fuel, Vehicle, allowed cars, multi-codepage MSO) and in-width multi-codepage text in all 30 text fields.",
+         "Field combinations beyond one-field-sweeps over two baselines are not explored; typed values of the Gen site come from decoding in-domain specification frames.", "DESIGN.md §4 C01", "E1"),
  "C02": ("model_checking",
          "bounded-exhaustive enumeration of an explicit layout model (spec table) with full conformance replay through the real codec",
          "Model = an independent transcription of the InSim v9 / relay layouts (spec/insim_v9.spec) with a table-driven reference encoder. Every value of every field's specification domain (every enumerant, flag bit / subset, boundary integers, whole 8/16-bit domains in the thorough tier, text, counts 0..max) x 2 baselines x 2 size modes is replayed through Codec::decode and Codec::encode and compared field by field and byte by byte. A deviation shared by reader and writer, which round-trips and passes every unit test, is caught because the oracle is independent of the Rust declarations.",
          "Trusts the transcription in spec/insim_v9.spec (IP octet order and signedness of byte-identical fields deliberately not judged); typed values observed through serde rendering; text ASCII only here.",
          "DESIGN.md §4 C02", "E1+spec"),
+ "C03": ("exploration", "bounded-exhaustive enumeration of encoder inputs (counts 0..255, texts 0..2N, decoded corpus) with a well-formedness oracle",
+         "Every encoder output is checked to be exactly one well-formed frame (multiple of 4, within the mode limit, right size byte, right count byte, decodes completely to the same kind, leaves a successor intact). Inputs: all Gen packets obtained by decoding specification frames, element counts 0..=255 for the seven counted kinds (legal ones must succeed with the specification length, oversize ones must be refused, never wrapped), texts of every length 0..=2N in all 30 text fields, every decoder-accepted 1-byte mutation of every reference frame, and MSO frames with every TextStart and high-byte fill (re-encode must not abort).",
+         "Refusal may be Err or panic for hand-built packets; only panics on decoder-produced packets are violations.", "DESIGN.md §4 C03", "E1"),
+ "C04": ("exploration", "deviation-bounded exhaustive enumeration of byte buffers against a reference framing model",
+         "All 65536 (size,type) headers x fills x lengths, every 1-byte mutation (all 256 values) of every reference frame of every kind, 2-byte mutations of structure bytes, every truncation, all short buffers over a 16-symbol alphabet, in both modes: no panic, need-more leaves the buffer untouched, exactly the announced frame (>= 4 bytes) is removed, verdict independent of following bytes, successor frame intact.",
+         "Byte strings at mutation distance > 2 from valid frames and longer than 8 bytes over the full byte alphabet are outside the bound.", "DESIGN.md §4 C04", "E1"),
+ "C10": ("model_checking", "exhaustive exploration of the code-page automaton (all state x character transitions, all table cells, all short strings) against reference tables",
+         "The encoder/decoder are automata over the current code page. All (state, character) transitions over the union repertoire of the ten Windows pages (reference tables from CPython's codecs) plus characters in no page, every single-byte table cell, agreement ratios of every double-byte table against every reference, every double-byte character with trail byte 0x5E followed by every marker, all strings <= 4/5 over class representatives, all byte strings <= 4/5 over 22 decoder-relevant symbols (BOM shapes, markers, lead/trail bytes) and all ASCII strings <= 3 are checked.",
+         "Reference tables are CPython's cp125x/cp932/cp936/cp949/cp950; DBCS tables compared by agreement ratio; private-use mappings excluded.", "DESIGN.md §4 C10", "E1"),
+ "C11": ("exploration", "bounded-exhaustive enumeration of strings (lengths 0..2N, six families) in every text field, located by specification offsets",
+         "For all 30 text-bearing fields: fixed fields occupy exactly N bytes = truncate-then-NUL-pad of the encoded text; variable fields are NUL-padded multiples of 4 within the maximum; MST/MSX/MSL/MTC end in NUL for every string; decoding stops at the first NUL (also for hand-built field contents).",
+         "Content expectation uses the implementation's own code-page encoding (judged by C10).", "DESIGN.md §4 C11", "E1"),
+ "C12": ("exploration", "exhaustive enumeration of all strings to a length bound over a class alphabet",
+         "All strings of length <= 5 (quick) / <= 7 (thorough) over 16 class representatives (caret, digits, escape letters, reserved characters, code-page letters, Latin-1/E/J characters) and all strings <= 3 over every reserved character and escape letter: unescape(escape(s)) = s, no raw reserved character, escape -> encode -> decode -> unescape = s, strip = reference stripper and idempotent.",
+         "Strings longer than the bound or mixing other characters are outside the bound.", "DESIGN.md §4 C12", "E1"),
+ "C13": ("exploration", "complete enumeration of the 2^32 input domain",
+         "Thorough: all 2^32 four-byte values against the InSim v9 car-id rule written independently (decode class, exact re-encode, display name, is_mod/is_builtin). Quick: all 2^24 values with byte 3 = 0 plus all alphanumeric triples x 256.",
+         "none beyond the rule transcription", "DESIGN.md §4 C13", "E1"),
+ "C14": ("exploration", "exhaustive enumeration of all enum variants and all shaped 6-byte strings",
+         "All variants of enum Track (list extracted from the source at build time): wire form = code NUL-padded, decodes back, display = code, reverse/open flags from the code suffix, open => no distance, licence constant per area; 281 M shaped 6-byte strings (upper/lower case, junk in padding) decode only if they are exactly a variant's wire form.",
+         "6-byte values outside the shaped space are not enumerated.", "DESIGN.md §4 C14", "E1"),
+ "C15": ("exploration", "exhaustive enumeration of 8/16-bit wire domains and boundary sets of 32-bit fields, both directions",
+         "All 256 race-length bytes, Laps(0..=2000), Hours(0..=300); all 23 time fields: every 16-bit wire value and 32-bit boundary/byte-lane sets through the full packet codec (meaning = w x resolution, exact re-encode), encode side floors to the resolution, out-of-range durations are refused.",
+         "32-bit fields are covered on boundary sets, not completely.", "DESIGN.md §4 C15", "E1"),
+ "C16": ("exploration", "exhaustive enumeration of strings to a length bound and of all pairs/triples of parsed versions",
+         "All strings <= 6/7 over a 13-symbol alphabet (no panic, watchdog for non-termination, print-reparse equality, letter case-insensitivity), all 8-byte wire forms of LFS's shape through the VER codec, all ordered pairs of parsed versions (antisymmetry, consistency with ==, number-letter-revision rule) and all triples of a stratified subset (transitivity).",
+         "A 20 s per-case watchdog stands in for a step budget.", "DESIGN.md §4 C16", "E1"),
+ "C17": ("fault_enumeration", "exhaustive enumeration of truncation points, single-byte substitutions and hostile count values over generated and shipped files",
+         "Generated PTH/SMX files with all count combinations 0..=2 and NaN/extreme payloads plus the shipped files: byte-exact write(parse(f)), stable re-parse; every strict prefix rejected; every single-byte substitution of files < 200 B parses without panic and within an allocation bound (counting allocator); every count field x 7 hostile values in a child process under RLIMIT_AS; from_file/from_pathbuf agree with read.",
+         "Truncation of the 926 kB shipped SMX is exhaustive only at both ends (quadratic cost).", "DESIGN.md §4 C17", "E1"),
 }
 
 NOT_BUILT = {}
